@@ -1387,18 +1387,19 @@ Proof.
   destruct (abs_path_split ocs Hocs) as [(-> & Eo1 & Eo2)|(ops & on & -> & Hops & Hon & Eo1 & Eo2)]; rewrite Eo2;
     destruct (abs_path_split ncs Hncs) as [(-> & En1 & En2)|(nps & nn & -> & Hnps & Hnn & En1 & En2)]; rewrite En2.
   - (* the root onto the root *)
-    change (abs_path (@nil str)) with [SLASH]. rewrite Hr2, Hr1, Hrd. cbn [negb orb]. exact Hinv.
+    change (abs_path (@nil str)) with [SLASH]. rewrite Hr2, Hr1, Hrd. cbn [negb orb]. destruct (_ && _); exact Hinv.
   - (* the root to another name *)
     change (abs_path (@nil str)) with [SLASH]. rewrite Hr2, Hr1.
     destruct (ofind s (rpath nps)) as [[np npn]|]; [|rewrite Hrd; exact Hinv].
     rewrite Hrd. cbn [negb orb]. destruct (on_dir npn); [|exact Hinv]. cbn [negb].
-    destruct (match ofind s (abs_path (nps ++ [nn])) with Some (_, nn0) => on_dir nn0 | None => false end); [exact Hinv|].
+    destruct (match ofind s (abs_path (nps ++ [nn])) with Some (_, nn0) => on_dir nn0 | None => false end);
+      [destruct (_ && _); exact Hinv|].
     rewrite Nat.eqb_refl. cbn [andb orb]. exact Hinv.
   - (* onto the root *)
     change (abs_path (@nil str)) with [SLASH].
     destruct (ofind s (rpath ops)) as [[op opn]|]; [|exact Hinv]. rewrite Hr2.
     destruct (ofind s (abs_path (ops ++ [on]))) as [[oc ocn]|].
-    + destruct (negb (on_dir opn) || negb (on_dir rn)); [exact Hinv|]. rewrite Hr1, Hrd. exact Hinv.
+    + destruct (negb (on_dir opn) || negb (on_dir rn)); [exact Hinv|]. rewrite Hr1, Hrd. destruct (_ && _); exact Hinv.
     + destruct (negb (on_dir opn) || negb (on_dir rn)); exact Hinv.
   - (* the general case *)
     rewrite Eo1, En1. change (sepc Linux) with SLASH.
@@ -1417,7 +1418,7 @@ Proof.
     destruct (ofind s (rpath new)) as [[nc ncn]|] eqn:Enc.
     + (* the new name exists *)
       apply ofind_Fi in Enc. destruct Enc as [HFnc Hncn].
-      destruct (on_dir ncn) eqn:Encd; [exact Hinv|].
+      destruct (on_dir ncn) eqn:Encd; [destruct (_ && _); exact Hinv|].
       destruct (on_dir ocn) eqn:Eocd.
       * cbn [andb]. destruct (Nat.eqb oc op || is_prefix (rpath old ++ [SLASH]) (rpath new)); exact Hinv.
       * cbn [andb]. destruct (Nat.eqb_spec nc oc) as [Eq|Hncoc]; [exact Hinv|]. cbn [fst].
